@@ -1,2 +1,16 @@
 import Driver.C17Ops
-def main : IO Unit := Driver.run Driver.C17Ops.step
+import Gql.Types.PrintSchemaText
+/-! C17 driver: the shared schema-content operations plus `text` (the SDL text of `print_schema`). -/
+open Gql Gql.Types Gql.Types.SExp Driver in
+def stepC17 (line : String) : String :=
+  match words line with
+  | "text" :: toks =>
+    match parseToks toks with
+    | some [s] =>
+      match dSchema s with
+      | some s => render (.str (PrintSchema.printSchemaText Gql.Syntax.Widths.generated s))
+      | none => "bad-schema"
+    | _ => "bad-sexp"
+  | _ => Driver.C17Ops.step line
+
+def main : IO Unit := Driver.run stepC17
